@@ -11,7 +11,7 @@ All statements are over an arbitrary linearly ordered field `α` (ℚ, ℝ) with
 the contract of `math.floor` (`IsFloor`); they are about the exact values, not about IEEE rounding.
 `lerp A B s` is the point `A + s (B − A)` of the segment `[A, B]`; `Consec t` are the consecutive vertex pairs of
 the track `t`; `Holds g i j k` says `k ∈ grid[i][j]`. `getCell ix p = some c` says that `p` is inside the closed
-extent and `c` are its fractional cell indices (what `__getCell` returns). `cellOf fl ix c =
+extent and `c` are its fractional cell indices (what `__getCell` returns: `getCell_min_is_identity`). `cellOf fl ix c =
 (min(floor c.x, csize − 1), min(floor c.y, lsize − 1))` is the cell containing the point, as `request(coord)` computes
 it: cells are half-open as `floor` assigns them, except that the last column / row is closed on the upper border of
 the extent (`extent_point_cell`). The legitimate configurations are `margin ≥ 0` (0 included) and the default or a
@@ -92,6 +92,13 @@ theorem collection_create_index {fl : α → Int} (hf : IsFloor fl) (feats : Lis
     obtain ⟨ix, h⟩ := build_returns hf feats res (0 : α) (le_refl _) hres hne
     exact ⟨0, ix, le_refl _, Or.inr rfl, by simp [createIndexTC], h⟩
 
+/-- `getCell_min_is_identity`: on an index on which nothing raises (in particular every built index) `__getCell` as
+executed — `idx = min((x − xmin) / dX, csize)`, `idy = min((y − ymin) / dY, lsize)` — returns exactly the affine
+fractional indices `getCell`: the `min` (which protects against a quotient that exceeds the grid size by a rounding
+error when `x = xmax`) is the identity in exact arithmetic, because the cells cover the extent. -/
+theorem getCell_min_is_identity (ix : Index α) (hg : Good ix) (p : α × α) : getCellR ix p = .ok (getCell ix p) :=
+  getCellR_of_nz ix hg.nz hg.bounded p
+
 /-- `extent_point_cell`: on a built index every point `p` of the closed extent has a cell `cellOf` inside the grid
 (`0 ≤ i < csize`, `0 ≤ j < lsize`) whose closed square contains its fractional indices `c`: `i ≤ c.x ≤ i + 1`
 (`c.x < i + 1` except for the last column, which owns the upper border `c.x = csize`), likewise for `j`. -/
@@ -146,7 +153,7 @@ theorem point_query_complete {fl : α → Int} (hf : IsFloor fl) (feats : List (
   obtain ⟨c, hc, l', hl', hkl⟩ := build_registers hf feats res margin ix hm hres hb k t hk A B hAB s hs0 hs1
   rw [hP] at hc; cases hc
   unfold requestPoint requestCell at hl
-  simp only [getCellR_of_nz ix hg.nz q, hq, hcell] at hl
+  simp only [getCellR_of_nz ix hg.nz hg.bounded q, hq, hcell] at hl
   rw [hl] at hl'; cases hl'
   exact hkl
 
@@ -158,7 +165,8 @@ theorem segment_query_complete {fl : α → Int} (hf : IsFloor fl) (feats : List
     (hb : build fl feats res margin = .ok ix) (Q1 Q2 : α × α) (l : List Nat)
     (h : requestSeg fl ix Q1 Q2 = .ok l) (s : α) (hs0 : 0 ≤ s) (hs1 : s ≤ 1) :
     ∃ c, getCell ix (lerp Q1 Q2 s) = some c ∧ ∀ k, Holds ix.grid (cellOf fl ix c).1 (cellOf fl ix c).2 k → k ∈ l := by
-  obtain ⟨p1, p2, g1, g2, _, hc⟩ := requestSegInto_spec fl ix [] l Q1 Q2 h
+  have hg := build_good hf feats res margin ix hm hres hb
+  obtain ⟨p1, p2, g1, g2, _, hc⟩ := requestSegInto_spec fl ix hg.bounded [] l Q1 Q2 h
   have hP := getCell_lerp ix Q1 Q2 p1 p2 s hs0 hs1 g1 g2
   obtain ⟨r1, r2⟩ := getCell_range hf feats res margin ix hm hres hb _ _ hP
   refine ⟨lerp p1 p2 s, hP, ?_⟩
@@ -181,7 +189,8 @@ theorem track_query_complete {fl : α → Int} (hf : IsFloor fl) (feats : List (
     (h : requestTrack fl ix track = .ok l) (Q1 Q2 : α × α) (hQ : (Q1, Q2) ∈ Consec track)
     (s : α) (hs0 : 0 ≤ s) (hs1 : s ≤ 1) :
     ∃ c, getCell ix (lerp Q1 Q2 s) = some c ∧ ∀ k, Holds ix.grid (cellOf fl ix c).1 (cellOf fl ix c).2 k → k ∈ l := by
-  obtain ⟨_, hc⟩ := requestTrackLoop_spec fl ix track none [] l h
+  have hg := build_good hf feats res margin ix hm hres hb
+  obtain ⟨_, hc⟩ := requestTrackLoop_spec fl ix hg.bounded track none [] l h
   obtain ⟨p1, p2, g1, g2, hcc⟩ := hc Q1 Q2 (by simpa using hQ)
   have hP := getCell_lerp ix Q1 Q2 p1 p2 s hs0 hs1 g1 g2
   obtain ⟨r1, r2⟩ := getCell_range hf feats res margin ix hm hres hb _ _ hP
@@ -244,7 +253,10 @@ theorem neighborhood_finds_registered {fl : α → Int} (hf : IsFloor fl) (ix : 
     (q : α × α) (hq : getCell ix q ≠ none) (d : α) (hd : 0 ≤ d)
     (hdist : (q.1 - P.1) ^ 2 + (q.2 - P.2) ^ 2 ≤ d ^ 2) :
     ∃ u l, groundDistanceToUnits fl ix d = .ok u ∧ neighborhoodPoint fl ix q u = .ok (some l) ∧ k ∈ l := by
-  obtain ⟨hw, hcs, hls, hdX, hdY⟩ := hg
+  have hnz := hg.nz
+  have hbd := hg.bounded
+  have hgrid := cellOf_inGrid hf ix hg
+  obtain ⟨hw, hcs, hls, hdX, hdY, _⟩ := hg
   obtain ⟨cq, hcq⟩ := Option.ne_none_iff_exists'.mp hq
   -- coordinate differences are bounded by the Euclidean distance
   have hx : -d ≤ q.1 - P.1 ∧ q.1 - P.1 ≤ d := by
@@ -259,11 +271,11 @@ theorem neighborhood_finds_registered {fl : α → Int} (hf : IsFloor fl) (ix : 
     rw [hueq]
     exact units_pos hf d _ hd hmn
   -- the cell of P is inside the grid
-  obtain ⟨⟨hi0, hi1⟩, hj0, hj1⟩ := cellOf_inGrid hf ix ⟨hw, hcs, hls, hdX, hdY⟩ _ cP hP
+  obtain ⟨⟨hi0, hi1⟩, hj0, hj1⟩ := hgrid _ cP hP
   -- the query
   refine ⟨u, ?_⟩
   unfold neighborhoodPoint
-  simp only [getCellR_of_nz ix (Good.nz ⟨hw, hcs, hls, hdX, hdY⟩) q, hcq]
+  simp only [getCellR_of_nz ix hnz hbd q, hcq]
   unfold neighborhoodCell
   have hne : (u != -1) = true := by
     simp only [bne_iff_ne, ne_eq]; omega
@@ -300,10 +312,10 @@ returns an index `ix'` with the same extent and grid dimensions in which everyth
 registered, every point of every segment of the track lies in a cell that lists `num`, a point request in that cell
 returns `num`, and a neighbourhood query from a ground distance `d` around any point `q` within `d` of the track
 returns `num` — whatever was asked of the index before the addition. (`ix` is any index reached from a built one by
-such additions: `Good` and `Tiled` are kept.) -/
-theorem late_feature_complete {fl : α → Int} (hf : IsFloor fl) (ix : Index α) (hg : Good ix) (ht : Tiled ix)
+such additions: `Good` is kept; `built_index_good` is the starting point.) -/
+theorem late_feature_complete {fl : α → Int} (hf : IsFloor fl) (ix : Index α) (hg : Good ix)
     (track : List (α × α)) (num : Nat) (hin : ∀ p ∈ track, getCell ix p ≠ none) :
-    ∃ ix', addFeature fl ix track num = .ok ix' ∧ Good ix' ∧ Tiled ix' ∧ Same ix ix' ∧
+    ∃ ix', addFeature fl ix track num = .ok ix' ∧ Good ix' ∧ Same ix ix' ∧
       (∀ i j k, Holds ix.grid i j k → Holds ix'.grid i j k) ∧
       ∀ A B, (A, B) ∈ Consec track → ∀ s : α, 0 ≤ s → s ≤ 1 →
         (∃ c, getCell ix' (lerp A B s) = some c ∧ Holds ix'.grid (cellOf fl ix' c).1 (cellOf fl ix' c).2 num) ∧
@@ -311,24 +323,25 @@ theorem late_feature_complete {fl : α → Int} (hf : IsFloor fl) (ix : Index α
         (∀ (q : α × α) (d : α), getCell ix' q ≠ none → 0 ≤ d →
           (q.1 - (lerp A B s).1) ^ 2 + (q.2 - (lerp A B s).2) ^ 2 ≤ d ^ 2 →
           ∃ u l, groundDistanceToUnits fl ix' d = .ok u ∧ neighborhoodPoint fl ix' q u = .ok (some l) ∧ num ∈ l) := by
-  obtain ⟨ix', h, hg', ht', e, hreg⟩ := addFeature_complete hf ix hg ht track num hin
-  refine ⟨ix', h, hg', ht', e.1, e.2, ?_⟩
+  obtain ⟨ix', h, hg', e, hreg⟩ := addFeature_complete hf ix hg track num hin
+  refine ⟨ix', h, hg', e.1, e.2, ?_⟩
   intro A B hAB s hs0 hs1
   obtain ⟨c, hc, hH⟩ := hreg A B hAB s hs0 hs1
   refine ⟨⟨c, hc, hH⟩, ?_, ?_⟩
   · obtain ⟨l, hl, hkl⟩ := hH
     refine ⟨l, ?_, hkl⟩
     unfold requestPoint requestCell
-    simp only [getCellR_of_nz ix' hg'.nz, hc]
+    simp only [getCellR_of_nz ix' hg'.nz hg'.bounded, hc]
     exact hl
   · intro q d hq hd hdist
     exact neighborhood_finds_registered hf ix' hg' num _ c hc hH q hq d hd hdist
 
-/-- a built index is `Good` and `Tiled`: the starting point of `late_feature_complete` -/
+/-- a built index is `Good` (well formed, at least one column and row, positive cell sides, the cells cover the
+extent): the starting point of `late_feature_complete`, which keeps it -/
 theorem built_index_good {fl : α → Int} (hf : IsFloor fl) (feats : List (List (α × α))) (res : Option (α × α))
     (margin : α) (ix : Index α) (hm : 0 ≤ margin) (hres : ∀ r, res = some r → 0 < r.1 ∧ 0 < r.2)
-    (hb : build fl feats res margin = .ok ix) : Good ix ∧ Tiled ix :=
-  ⟨build_good hf feats res margin ix hm hres hb, build_tiled hf feats res margin ix hm hres hb⟩
+    (hb : build fl feats res margin = .ok ix) : Good ix :=
+  build_good hf feats res margin ix hm hres hb
 
 /-- `grid_always_builds` (the repairs 9a44198 and the degenerate-extent one): with the default resolution or a
 positive explicit cell size, `__init__` reaches the registration loop without raising for EVERY bounding box — an
